@@ -166,6 +166,18 @@ CHECKS = {
         note="The app is driven with WSGI environ dicts (no HTTP server); locating the name server is replaced by a factory for a proxy to the harness' name server.",
         design_ref="DESIGN.md section 3 C20",
     ),
+    "C03": dict(
+        engine="N+T",
+        technique="stateless exploration of fault scripts (wire adversary decisions as explorer choices) and message-level interleavings over the real Proxy and Daemon on an in-memory network",
+        text="For call histories on one proxy (all of length 1-2 over normal/raising/oneway/batch/attribute/stream calls, selected or all of length 3), MAX_RETRIES 0/1/2, "
+             "sequence counter started at 0 and at 0xFFFE, multiplex and thread-pool server, the adversary's decision for every request - deliver, reply lost, reset "
+             "before/after processing, reply cut at header or payload offsets followed by reset, stale reply replayed, sequence number rewritten, reply duplicated - is "
+             "an explorer choice; every script with up to 1-2 faults is executed together with the thread interleavings it induces. Oracle: a call returns its own token "
+             "/ raises its own exception / raises a communication error, per-token execution counters respect exactly-once (at most 1+N with retries), oneway calls "
+             "read nothing, and once the faults stop the same proxy answers (after at most one further communication error caused by leftover garbage).",
+        note="Faults act on whole messages; handshake messages are delivered faithfully; timeouts are virtual (fire when nothing else can run).",
+        design_ref="DESIGN.md section 3 C03",
+    ),
 }
 
 NOT_YET = {}
